@@ -97,6 +97,8 @@ func (x info) Mode() FileMode {
 	switch {
 	case x.i.Dir:
 		return fs.ModeDir | 0755
+	case x.i.Link:
+		return fs.ModeSymlink | 0777
 	case x.i.Pipe:
 		return fs.ModeNamedPipe | 0600
 	case x.i.Char:
@@ -113,6 +115,7 @@ const (
 	ModeNamedPipe  = fs.ModeNamedPipe
 	ModeCharDevice = fs.ModeCharDevice
 	ModeDevice     = fs.ModeDevice
+	ModeSymlink    = fs.ModeSymlink
 	ModeType       = fs.ModeType
 )
 
@@ -123,7 +126,13 @@ func Stat(name string) (FileInfo, error) {
 	}
 	return info{i}, nil
 }
-func Lstat(name string) (FileInfo, error) { return Stat(name) }
+func Lstat(name string) (FileInfo, error) {
+	i, err := simos.Lstat(name)
+	if err != nil {
+		return nil, err
+	}
+	return info{i}, nil
+}
 
 // SameFile: the simulated disk has no links, two infos name the same file
 // exactly when they carry the same name.
@@ -147,6 +156,9 @@ func Getwd() (string, error)                    { return "/work", nil }
 func Hostname() (string, error)                 { return "simhost", nil }
 func Environ() []string                         { return nil }
 func Readlink(name string) (string, error) {
+	if t, ok := simos.Cur.FS.Links[name]; ok {
+		return t, nil
+	}
 	return "", &PathError{Op: "readlink", Path: name, Err: fs.ErrInvalid}
 }
 
